@@ -102,7 +102,7 @@ PROPERTIES = {
              '(missing re.DOTALL) was found by the obligation get_http_header/ensures:found-when-present and repaired (fix: commit).',
     ),
     'C04': dict(
-        modules=['httpstream', 'httpclient', 'warc'], level='proof', bounded=['c08_segment.py'],
+        modules=['httpstream', 'httpclient', 'warc'], level='proof', bounded=['c08_segment.py', 'c05_reader.py'],
         claim='Ghost byte streams per connection: `consumed` (everything read()/readline() returned) and `notified` (everything reported to read listeners). '
               'read_response, the read-until-close, chunked (header, fragments, terminators, trailer) and length-delimited readers all satisfy, by inductive loop '
               'invariants over symbolic read lengths (= every segmentation), notified-delta == consumed-delta on normal exit -- except that a length-delimited '
